@@ -18,6 +18,23 @@ fn roll_forms(data: &[u8], cut: usize) -> Vec<(&'static str, u32)> {
     let mut h = RollingHash::new();
     h.update_by_iter(a.iter().copied()).update_by_iter(b.iter().copied());
     out.push(("update_by_iter", h.value()));
+    // iterators whose size_hint is not exact (upper bound larger than the real count, or unknown)
+    let mut h = RollingHash::new();
+    h.update_by_iter(data.iter().copied().filter(|_| true));
+    out.push(("update_by_iter(filter)", h.value()));
+    let mut h = RollingHash::new();
+    let mut keep = 0usize;
+    h.update_by_iter(data.iter().copied().chain(std::iter::repeat(0u8).take(40)).take_while(|_| {
+        keep += 1;
+        keep <= data.len()
+    }));
+    out.push(("update_by_iter(take_while over a longer iterator)", h.value()));
+    let mut h = RollingHash::new();
+    h.update_by_iter(data.chunks(3).flat_map(|c| c.iter().copied()));
+    out.push(("update_by_iter(flat_map)", h.value()));
+    let mut h = RollingHash::new();
+    h.update_by_iter(a.iter().copied().chain(b.iter().copied()).skip_while(|_| false));
+    out.push(("update_by_iter(chain+skip_while)", h.value()));
     let mut h = RollingHash::new();
     for &c in data {
         h.update_by_byte(c);
@@ -58,6 +75,12 @@ fn fnv_forms(data: &[u8], cut: usize) -> Vec<(&'static str, u8)> {
     let mut h = PartialFNVHash::new();
     h.update_by_iter(a.iter().copied()).update_by_iter(b.iter().copied());
     out.push(("update_by_iter", h.value()));
+    let mut h = PartialFNVHash::new();
+    h.update_by_iter(data.iter().copied().filter(|_| true));
+    out.push(("update_by_iter(filter)", h.value()));
+    let mut h = PartialFNVHash::new();
+    h.update_by_iter(data.chunks(3).flat_map(|c| c.iter().copied()));
+    out.push(("update_by_iter(flat_map)", h.value()));
     let mut h = PartialFNVHash::new();
     for &c in data {
         h.update_by_byte(c);
@@ -248,7 +271,7 @@ pub fn run(o: &Opts) -> i32 {
         o,
         rr,
         Report {
-            rule: "FNV step: every one of the 64 observable states (reached from new() by BFS) x all 256 bytes x six update forms against the low 6 bits of 32-bit FNV-1 with initial value 0x28021967 (complete). Rolling hash: at EVERY prefix of W1/W2 strings and of all trigger words (incl. value 0 with a non-zero window and 0xffffffff) against sum + position-weighted sum + shift-5-xor fold over the trailing 7 bytes recomputed from scratch; dependence on the window only (7 junk bytes then the window); six update forms (update, update_by_iter, update_by_byte, += &[u8], += &[u8;N], += u8) agree. Non-trivial = string of >= 8 bytes, or an FNV (state, byte) step; distinct by content.".into(),
+            rule: "FNV step: every one of the 64 observable states (reached from new() by BFS) x all 256 bytes x six update forms against the low 6 bits of 32-bit FNV-1 with initial value 0x28021967 (complete). Rolling hash: at EVERY prefix of W1/W2 strings and of all trigger words (incl. value 0 with a non-zero window and 0xffffffff) against sum + position-weighted sum + shift-5-xor fold over the trailing 7 bytes recomputed from scratch; dependence on the window only (7 junk bytes then the window); the update forms (update, update_by_iter with exact-size AND inexact-size iterators - filter, take_while over a longer iterator, flat_map, chain - update_by_byte, += &[u8], += &[u8;N], += u8) agree. Non-trivial = string of >= 8 bytes, or an FNV (state, byte) step; distinct by content.".into(),
             assumptions: vec![],
             exhaustive: false,
             min_nontrivial: 16_384,
